@@ -675,13 +675,15 @@ def write_translated(path):
     """the Python->Lean translation of the decision functions (harness/py2lean.py); written next to Consts.lean"""
     import py2lean
     text, errors = py2lean.generate(os.path.join(SRC, "serif"))
-    old = open(path).read() if os.path.exists(path) else None
-    if old != text:
-        tmp = path + ".tmp%d" % os.getpid()
-        with open(tmp, "w") as f:
-            f.write(text)
-        os.replace(tmp, path)
-    return errors
+    rel, rerrors = py2lean.generate_rel(os.path.join(SRC, "serif"))
+    for pth, txt in ((path, text), (os.path.join(os.path.dirname(path), "TranslatedRel.lean"), rel)):
+        old = open(pth).read() if os.path.exists(pth) else None
+        if old != txt:
+            tmp = pth + ".tmp%d" % os.getpid()
+            with open(tmp, "w") as f:
+                f.write(txt)
+            os.replace(tmp, pth)
+    return errors + rerrors
 
 
 def write(path):
